@@ -53,9 +53,11 @@ Theorem C20_partial_strong : forall cfg k cap buf0 req fr,
   async_handle cfg k cap buf0 req fr = handle cfg k cap req fr.
 Proof. exact async_handle_eq. Qed.
 
-(* The model is written over a [shape]: four yes/no facts the translator reads off the source on every run
+(* The model is written over a [shape]: six yes/no facts the translator reads off the source on every run
    (gate tests the capacity? gate exempts FORGET? async_write has its size gate? async_commit returns early
-   on an unbuffered writer?).  [async_handle] = [async_handle_gen code_shape].  For the shape the three
+   on an unbuffered writer? async_lookup / async_create answer EINVAL for a name without NUL?).  The last two
+   have no known-class disjunct: the equivalence needs them true ([names_answered]); for the code that is
+   discharged by computation on the translated value, so a source change there breaks C20_partial itself.  [async_handle] = [async_handle_gen code_shape].  For the shape the three
    patches of /verif/fixes/C20-*.patch produce (two are applied; the third is the write gate), the defect class is
    empty and the full statement holds: *)
 Theorem C20_full_after_fixes : forall cfg k cap buf0 req fr,
@@ -65,7 +67,7 @@ Proof. intros. rewrite async_handle_fixed_eq by assumption. reflexivity. Qed.
 
 (* and for every shape: equality outside that shape's class *)
 Theorem C20_partial_any_shape : forall sh cfg k cap buf0 req fr,
-  async_expressible fr = true -> known_class_gen sh cfg k cap req fr = false ->
+  names_answered sh = true -> async_expressible fr = true -> known_class_gen sh cfg k cap req fr = false ->
   async_handle_gen sh cfg k cap buf0 req fr = handle cfg k cap req fr.
 Proof. exact async_handle_gen_eq. Qed.
 
@@ -73,7 +75,7 @@ Proof. exact async_handle_gen_eq. Qed.
 (* dispatch: every async handler makes the same filesystem calls with the same arguments as its sync twin and
    takes the corresponding reply action; every other opcode runs the sync handler itself *)
 Theorem C20_dispatch_equiv : forall sh cfg h ctx r fr wcap,
-  async_expressible fr = true -> (h_opcode h = 16 -> (sh_write_gate sh && big_write r) = false) ->
+  names_answered sh = true -> async_expressible fr = true -> (h_opcode h = 16 -> (sh_write_gate sh && big_write r) = false) ->
   dec_to_sync (async_handler sh cfg h ctx r fr wcap) = handler cfg h ctx r fr wcap.
 Proof. exact async_handler_rel. Qed.
 
